@@ -41,7 +41,7 @@ class Run(PropRunStream):
     oracles = ("C02",)
     quick_cases = 300
     quick_seconds = 50
-    corpus = [witness("N1 "), witness("D11 ")] + W2.CONTROLS + W2.CONTROLS2 + W2.CONTROLS3 + [W2.THREAD_ENDS_WITH_PANIC]
+    corpus = [witness("N1 "), witness("D11 ")] + W2.CONTROLS + W2.CONTROLS2 + W2.CONTROLS3 + [W2.THREAD_ENDS_WITH_PANIC] + W2.CONTROLS4
     p_interrupt = 0.2
 
 
